@@ -8,14 +8,52 @@ Import ListNotations.
 Lemma pool_wf st : Forall root_cell st -> wf st.
 Proof.
   intros F i c E. apply nth_error_In in E. rewrite Forall_forall in F.
-  destruct (F c E) as [H1 [H2 H3]]. apply ShRoot; assumption.
+  destruct (F c E) as [H1 [H2 [H3 H4]]]. apply ShRoot; assumption.
+Qed.
+
+(* FactoryOf on an existing value keeps the store well formed *)
+Lemma nth_error_set_isfac st : forall i j,
+  nth_error (set_isfac st i) j
+  = if Nat.eqb j i then option_map fac_cell (nth_error st j) else nth_error st j.
+Proof.
+  induction st as [|c r IH]; intros i j.
+  - simpl. destruct j; destruct (Nat.eqb _ i); reflexivity.
+  - destruct i as [|i]; destruct j as [|j]; simpl; try reflexivity. apply IH.
+Qed.
+
+Lemma set_isfac_lookup st i o co :
+  nth_error st o = Some co ->
+  exists co', nth_error (set_isfac st i) o = Some co'
+    /\ g_fref (c_g co') = g_fref (c_g co) /\ g_serr (c_g co') = g_serr (c_g co)
+    /\ g_later (c_g co') = g_later (c_g co) /\ c_x co' = c_x co
+    /\ (g_isfac (c_g co) = true -> g_isfac (c_g co') = true).
+Proof.
+  intros E. rewrite nth_error_set_isfac, E. destruct (Nat.eqb o i); simpl; eexists; repeat split; auto.
+Qed.
+
+Lemma set_isfac_wf st i : wf st -> wf (set_isfac st i).
+Proof.
+  intros W j c' E. rewrite nth_error_set_isfac in E.
+  assert (H : exists c, nth_error st j = Some c /\ g_fref (c_g c') = g_fref (c_g c)
+                        /\ g_serr (c_g c') = g_serr (c_g c) /\ g_later (c_g c') = g_later (c_g c)
+                        /\ c_x c' = c_x c /\ (g_isfac (c_g c) = true -> g_isfac (c_g c') = true)).
+  { destruct (Nat.eqb j i).
+    - destruct (nth_error st j) as [c|]; [|discriminate]. injection E as <-. exists c. simpl. auto 10.
+    - exists c'. auto 10. }
+  destruct H as [c [Ec [Hf [Hs [Hl [Hx Hi]]]]]].
+  destruct (W j c Ec) as [Fc Sc Lc Xc | o co Fc Eo Fo So Lo Xo Pc PLc].
+  - apply ShRoot; try congruence. intros x Hx'. apply Hi. apply (Xc x). congruence.
+  - destruct (set_isfac_lookup st i o co Eo) as [co' [Eo' [Hf' [Hs' [Hl' [Hx' Hi']]]]]].
+    apply ShDer with (o := o) (co := co'); try congruence.
+    intros x Hxx. apply Hi'. apply (Xo x). congruence.
 Qed.
 
 Lemma reachable_wf xw st : guarded_wiring xw -> reachable xw st -> wf st.
 Proof.
-  intros G R. induction R as [st F | st v m a st' r R IH Adm C].
+  intros G R. induction R as [st F | st v m a st' r R IH Adm C | st i R IH].
   - apply pool_wf. exact F.
   - destruct (call_wf xw st v m a st' r G IH Adm C) as [W _]. exact W.
+  - apply set_isfac_wf. exact IH.
 Qed.
 
 (* ---------------------------------------------------------------- one derivation *)
@@ -31,19 +69,6 @@ Qed.
 Lemma origin_extend st ext k : k < length st -> origin (st ++ ext) k = origin st k.
 Proof. intros H. unfold origin. rewrite nth_error_app1 by exact H. reflexivity. Qed.
 
-(* the converted error a clone carries *)
-Definition serr_after (old new : val) : val := if is_nil old && negb (is_nil new) then new else old.
-
-Lemma clone_fields w g bp ep a :
-  g_fref (apply_wiring w g bp ep a)
-  = (let f := if is_nil (g_fref g) then bp else g_fref g in
-     if is_nil f && g_isfac g then ep else f)
-  /\ g_serr (apply_wiring w g bp ep a) = serr_after (g_serr g) (eval_e a (w_serr w)).
-Proof.
-  unfold apply_wiring, clone_base, serr_after.
-  repeat match goal with |- context [if ?c then _ else _] => destruct c end; simpl; split; reflexivity.
-Qed.
-
 (* a call that is not the early return of Convert: one fresh cell, same originating factory,
    every older cell (and its origin) untouched *)
 Lemma call_derives xw st v m a st' r i ci :
@@ -53,6 +78,8 @@ Lemma call_derives xw st v m a st' r i ci :
   exists c', st' = st ++ [c'] /\ gv st' r = Some (length st)
     /\ origin st' (length st) = origin st i
     /\ g_serr (c_g c') = serr_after (g_serr (c_g ci)) (eval_e a (w_serr (wt_of xw v m)))
+    /\ g_later (c_g c') = later_after (g_serr (c_g ci)) (g_later (c_g ci)) (eval_e a (w_serr (wt_of xw v m)))
+    /\ g_isfac (c_g c') = false
     /\ (c_x c' = None <-> exists k, v = VG k).
 Proof.
   intros W G Ei Gd H.
@@ -60,26 +87,26 @@ Proof.
   - destruct (nth_error st k) as [c|] eqn:E; [|discriminate]. injection G as ->.
     rewrite Ei in E. injection E as <-. rewrite Gd in H. injection H as <- <-.
     eexists. split; [reflexivity|].
-    destruct (clone_fields (base_wiring m) (c_g ci) (VG i) (VG i) a) as [Hf Hs].
+    destruct (clone_fields (base_wiring m) (c_g ci) (VG i) (VG i) a) as [Hf [Hs [Hl Hi]]].
     split; [simpl; rewrite nth_error_app2, Nat.sub_diag by lia; reflexivity|].
     split.
     { unfold origin at 1. rewrite nth_error_app2, Nat.sub_diag by lia. simpl. rewrite Hf.
-      destruct (W i ci Ei) as [Fi _ _ | o co Fi _ _ _ _ Ni _].
+      destruct (W i ci Ei) as [Fi _ _ _ | o co Fi _ _ _ _ _ _ _].
       - rewrite Fi. simpl. rewrite (origin_root st i ci Ei Fi). reflexivity.
       - rewrite Fi. simpl. rewrite (origin_der st i ci o Ei Fi). reflexivity. }
-    split; [exact Hs|]. simpl. split; [intros _; eauto|reflexivity].
+    split; [exact Hs|]. split; [exact Hl|]. split; [exact Hi|]. simpl. split; [intros _; eauto|reflexivity].
   - destruct (nth_error st k) as [c|] eqn:E; [|discriminate].
     destruct (c_x c) as [x|] eqn:X; [|discriminate]. injection G as ->.
     rewrite Ei in E. injection E as <-. rewrite Gd in H. injection H as <- <-.
     eexists. split; [reflexivity|].
-    destruct (clone_fields (xw m) (c_g ci) (VG i) (VX i) a) as [Hf Hs].
+    destruct (clone_fields (xw m) (c_g ci) (VG i) (VX i) a) as [Hf [Hs [Hl Hi]]].
     split; [simpl; rewrite nth_error_app2, Nat.sub_diag by lia; simpl; reflexivity|].
     split.
     { unfold origin at 1. rewrite nth_error_app2, Nat.sub_diag by lia. simpl. rewrite Hf.
-      destruct (W i ci Ei) as [Fi _ _ | o co Fi _ _ _ _ Ni _].
+      destruct (W i ci Ei) as [Fi _ _ _ | o co Fi _ _ _ _ _ _ _].
       - rewrite Fi. simpl. rewrite (origin_root st i ci Ei Fi). reflexivity.
       - rewrite Fi. simpl. rewrite (origin_der st i ci o Ei Fi). reflexivity. }
-    split; [exact Hs|]. simpl. split; [discriminate|intros [k0 E0]; discriminate].
+    split; [exact Hs|]. split; [exact Hl|]. split; [exact Hi|]. simpl. split; [discriminate|intros [k0 E0]; discriminate].
 Qed.
 
 (* Convert / ConvertS of a value that already is a gerror error: returned unchanged *)
@@ -109,7 +136,7 @@ Lemma derive_origin xw : guarded_wiring xw -> forall ch st v st' r i,
   forallb no_shortcut ch = true ->
   derive xw st v ch = Some (st', r) ->
   wf st' /\ exists k, gv st' r = Some k /\ origin st' k = origin st i /\ length st <= length st'
-                       /\ (ch = [] \/ length st <= k).
+     /\ (ch = [] \/ (length st <= k /\ exists ck, nth_error st' k = Some ck /\ g_isfac (c_g ck) = false)).
 Proof.
   intros GW. induction ch as [|[m a] ch IH]; intros st v st' r i W G Adm NS D.
   - simpl in D. injection D as <- <-. split; [exact W|]. exists i. auto.
@@ -120,7 +147,7 @@ Proof.
     assert (Gd : w_guard (wt_of xw v m) && is_gerr_val (a_err a) = false).
     { unfold no_shortcut in NS1. simpl in NS1. apply negb_true_iff in NS1. rewrite NS1.
       apply andb_false_r. }
-    destruct (call_derives xw st v m a st1 v1 i ci W G Ei Gd C) as [c' [E1 [G1 [O1 _]]]].
+    destruct (call_derives xw st v m a st1 v1 i ci W G Ei Gd C) as [c' [E1 [G1 [O1 [_ [_ [I1 _]]]]]]].
     destruct (call_wf xw st v m a st1 v1 GW W A1 C) as [W1 _].
     assert (Adm1 : Forall (fun s => admissible st1 (a_err (snd s))) ch).
     { subst st1. eapply Forall_impl; [|exact A2]. intros s [H|[[k H]|H]].
@@ -130,8 +157,9 @@ Proof.
     destruct (IH st1 v1 st' r (length st) W1 G1 Adm1 NS2 D) as [W' [k [Gk [Ok [Len Fresh]]]]].
     split; [exact W'|]. exists k. split; [exact Gk|]. split; [congruence|].
     subst st1. rewrite app_length in Len, Fresh. simpl in Len, Fresh. split; [lia|]. right.
-    destruct Fresh as [->|Fresh]; [|lia].
-    simpl in D. injection D as <- <-. rewrite G1 in Gk. injection Gk as <-. lia.
+    destruct Fresh as [->|[Fresh Cell]]; [|split; [lia|exact Cell]].
+    simpl in D. injection D as <- <-. rewrite G1 in Gk. injection Gk as <-. split; [lia|].
+    exists c'. split; [|exact I1]. rewrite nth_error_app2, Nat.sub_diag by lia. reflexivity.
 Qed.
 
 (* ---------------------------------------------------------------- errors.Is never panics *)
@@ -148,23 +176,28 @@ Proof.
 Qed.
 
 (* ---------------------------------------------------------------- Convert / ConvertS *)
+(* which recorded error matches after Convert(e): the first one, or one of the later ones *)
+Definition conv_after (s : val) (l : list val) (e : val) : bool :=
+  serr_match (serr_after s e) e || existsb (fun x => serr_match x e) (later_after s l e).
+
 Lemma convert_is_fwd xw st v m a st' r i ci t c p u :
   guarded_wiring xw -> wf st -> gv st v = Some i -> nth_error st i = Some ci ->
   w_serr (wt_of xw v m) = EErr -> a_err a = VF t c p u -> pure u = true ->
   call xw st v m a = Some (st', r) ->
   errors_is st' r (VF t c p u)
-  = Ok (serr_match (serr_after (g_serr (c_g ci)) (VF t c p u)) (VF t c p u)).
+  = Ok (conv_after (g_serr (c_g ci)) (g_later (c_g ci)) (VF t c p u)).
 Proof.
   intros GW W G Ei Hw Ha P C.
   assert (Adm : admissible st (a_err a)).
   { right; right. rewrite Ha. exists t, c, p, u. auto. }
   assert (Gd : w_guard (wt_of xw v m) && is_gerr_val (a_err a) = false).
   { rewrite Ha. simpl. apply andb_false_r. }
-  destruct (call_derives xw st v m a st' r i ci W G Ei Gd C) as [c' [E1 [G1 [_ [S1 _]]]]].
+  destruct (call_derives xw st v m a st' r i ci W G Ei Gd C) as [c' [E1 [G1 [_ [S1 [L1 _]]]]]].
   destruct (call_wf xw st v m a st' r GW W Adm C) as [W' _].
   assert (E' : nth_error st' (length st) = Some c').
   { subst st'. rewrite nth_error_app2, Nat.sub_diag by lia. reflexivity. }
-  rewrite (errors_is_gf st' W' r (length st) c' t c p u G1 E'), S1, Hw. simpl. rewrite Ha. reflexivity.
+  rewrite (errors_is_gf st' W' r (length st) c' t c p u G1 E'). unfold conv_match, conv_after.
+  rewrite S1, L1, Hw. simpl eval_e. rewrite Ha. reflexivity.
 Qed.
 
 Lemma serr_match_self t p u : serr_match (VF t true p u) (VF t true p u) = true.
@@ -174,6 +207,23 @@ Lemma serr_match_noncomparable s t p u : serr_match s (VF t false p u) = false.
 Proof.
   destruct s as [| | |t0 c0 p0 u0]; simpl; try reflexivity.
   destruct c0; simpl; rewrite ?andb_false_r; reflexivity.
+Qed.
+
+(* a comparable error just converted always matches: as the first one or as a later one *)
+Lemma conv_after_comparable s l t p u : conv_after s l (VF t true p u) = true.
+Proof.
+  unfold conv_after, serr_after, later_after.
+  change (is_nil (VF t true p u)) with false.
+  destruct (is_nil s); cbn [andb negb].
+  - rewrite serr_match_self. reflexivity.
+  - rewrite existsb_app. cbn [existsb]. rewrite serr_match_self. rewrite !orb_true_r. reflexivity.
+Qed.
+
+Lemma conv_after_noncomparable s l t p u : conv_after s l (VF t false p u) = false.
+Proof.
+  unfold conv_after. rewrite serr_match_noncomparable. simpl.
+  induction (later_after s l (VF t false p u)) as [|x r IH]; simpl; [reflexivity|].
+  rewrite serr_match_noncomparable. exact IH.
 Qed.
 
 Lemma convert_is_bwd xw st v m a st' r t c p u :
@@ -206,14 +256,33 @@ Lemma orig_panics :
   end.
 Proof. vm_compute. split; reflexivity. Qed.
 
-(* a second Convert on an error that already carries a converted error keeps the first *)
+(* a second Convert on an error that already carries a converted error: the first stays the
+   srcError, the second is recorded as a later one; both match *)
 Definition e_one : val := VF 1 true 1 VNil.
 Definition e_two : val := VF 1 true 2 VNil.
-Lemma double_convert_not_recorded :
+Lemma double_convert_recorded :
   match call base_wiring panic_store (VG 0) MConvert (mkA [] [] [] e_one [] 0 [109%N]) with
   | Some (st1, r1) =>
       match call base_wiring st1 r1 MConvert (mkA [] [] [] e_two [] 1 [109%N]) with
-      | Some (st2, r2) => errors_is st2 r2 e_two = Ok false /\ errors_is st2 r2 e_one = Ok true
+      | Some (st2, r2) =>
+          errors_is st2 r2 e_two = Ok true /\ errors_is st2 r2 e_one = Ok true
+          /\ errors_is st2 r1 e_two = Ok false
+      | None => False
+      end
+  | None => False
+  end.
+Proof. vm_compute. repeat split; reflexivity. Qed.
+
+(* record of the code before the repair ([clone_base_orig]: no list of later errors): the second
+   converted error was lost *)
+Definition orig_cell (c : cell) : cell := mkC (drop_later (c_g c)) (c_x c).
+Lemma double_convert_orig_not_recorded :
+  match call base_wiring panic_store (VG 0) MConvert (mkA [] [] [] e_one [] 0 [109%N]) with
+  | Some (st1, r1) =>
+      match call base_wiring st1 r1 MConvert (mkA [] [] [] e_two [] 1 [109%N]) with
+      | Some (st2, r2) =>
+          errors_is (map orig_cell st2) r2 e_two = Ok false
+          /\ errors_is (map orig_cell st2) r2 e_one = Ok true
       | None => False
       end
   | None => False
@@ -261,17 +330,16 @@ Lemma is_origin st va vb i j :
   errors_is st va vb = Ok (Nat.eqb (origin st i) (origin st j)).
 Proof. intros W. exact (errors_is_gg true st W va vb i j). Qed.
 
-Lemma convert_fwd_first xw st v m a st' r i ci t p u :
-  guarded_wiring xw -> wf st -> gv st v = Some i -> nth_error st i = Some ci ->
-  g_serr (c_g ci) = VNil ->
+(* Convert/ConvertS of a comparable foreign error e, on ANY receiver: errors.Is(result, e) *)
+Lemma convert_fwd_full xw st v m a st' r i t p u :
+  guarded_wiring xw -> wf st -> gv st v = Some i ->
   w_serr (wt_of xw v m) = EErr -> a_err a = VF t true p u -> pure u = true ->
   call xw st v m a = Some (st', r) ->
   errors_is st' r (VF t true p u) = Ok true.
 Proof.
-  intros GW W G Ei S Hw Ha P C.
-  rewrite (convert_is_fwd xw st v m a st' r i ci t true p u GW W G Ei Hw Ha P C), S.
-  change (serr_after VNil (VF t true p u)) with (VF t true p u).
-  rewrite serr_match_self. reflexivity.
+  intros GW W G Hw Ha P C. destruct (gv_cell _ _ _ G) as [ci [Ei _]].
+  rewrite (convert_is_fwd xw st v m a st' r i ci t true p u GW W G Ei Hw Ha P C).
+  rewrite conv_after_comparable. reflexivity.
 Qed.
 
 Lemma convert_fwd_noncomparable xw st v m a st' r i ci t p u :
@@ -282,7 +350,14 @@ Lemma convert_fwd_noncomparable xw st v m a st' r i ci t p u :
 Proof.
   intros GW W G Ei Hw Ha P C.
   rewrite (convert_is_fwd xw st v m a st' r i ci t false p u GW W G Ei Hw Ha P C).
-  rewrite serr_match_noncomparable. reflexivity.
+  rewrite conv_after_noncomparable. reflexivity.
+Qed.
+
+(* the errors recorded earlier keep matching after any further derivation *)
+Lemma later_after_keeps s l e x : In x l -> In x (later_after s l e).
+Proof.
+  unfold later_after. intros H. destruct (is_nil s && negb (is_nil e)); [exact H|].
+  destruct (negb (is_nil e)); [apply in_or_app; left; exact H|exact H].
 Qed.
 
 Lemma convert_wiring m : w_serr (base_wiring m) = EErr <-> is_convert m = true.
@@ -292,30 +367,7 @@ Proof. destruct m; simpl; split; congruence. Qed.
 Lemma panic_store_wf : wf panic_store.
 Proof.
   apply pool_wf. constructor; [|constructor].
-  split; [reflexivity|split; [reflexivity|intros x Hx; discriminate]].
-Qed.
-
-Lemma convert_fwd_full_refuted :
-  ~ (forall xw st v m a st' r i t p u,
-        guarded_wiring xw -> wf st -> gv st v = Some i ->
-        w_serr (wt_of xw v m) = EErr -> a_err a = VF t true p u -> pure u = true ->
-        call xw st v m a = Some (st', r) ->
-        errors_is st' r (VF t true p u) = Ok true).
-Proof.
-  intros H.
-  pose proof double_convert_not_recorded as D.
-  destruct (call base_wiring panic_store (VG 0) MConvert (mkA [] [] [] e_one [] 0 [109%N]))
-    as [[st1 r1]|] eqn:C1; [|contradiction].
-  destruct (call base_wiring st1 r1 MConvert (mkA [] [] [] e_two [] 1 [109%N]))
-    as [[st2 r2]|] eqn:C2; [|contradiction].
-  destruct D as [D _].
-  assert (A1 : admissible panic_store (a_err (mkA [] [] [] e_one [] 0 [109%N]))).
-  { right; right. exists 1%N, true, 1%N, VNil. split; reflexivity. }
-  destruct (call_wf base_wiring _ _ _ _ _ _ base_wiring_guarded panic_store_wf A1 C1) as [W1 [[k G1] _]].
-  assert (Hw : w_serr (wt_of base_wiring r1 MConvert) = EErr) by (destruct r1; reflexivity).
-  pose proof (H base_wiring st1 r1 MConvert (mkA [] [] [] e_two [] 1 [109%N]) st2 r2 k 1%N 2%N VNil
-                base_wiring_guarded W1 G1 Hw eq_refl eq_refl C2) as H2.
-  unfold e_two in D. rewrite D in H2. discriminate.
+  split; [reflexivity|split; [reflexivity|split; [reflexivity|intros x Hx; discriminate]]].
 Qed.
 
 Lemma no_panic_orig_refuted :
@@ -371,10 +423,9 @@ Proof.
     rewrite (val_of_extend st ext G HG). destruct RG as [RG1 _].
     apply (is_not_other (st ++ ext) e k (val_of st G) G cG W' Gk
              (gv_extend st ext _ _ (gv_val_of st G cG EG)) EG' RG1). congruence.
-  - intros Hne. destruct Fresh as [->|Fresh]; [contradiction|].
-    destruct (gv_cell _ _ _ Gk) as [ck [Ek _]].
-    rewrite (extract_gerr (st ++ ext) e k ck W' Gk Ek), Ok.
-    destruct (W' k ck Ek) as [Fk _ _ | o co Fk _ _ _ _ _ _].
+  - intros Hne. destruct Fresh as [->|[Fresh [ck [Ek Ik]]]]; [contradiction|].
+    rewrite (extract_gerr (st ++ ext) e k ck W' Gk Ek), Ik, Ok.
+    destruct (W' k ck Ek) as [Fk _ _ _ | o co Fk _ _ _ _ _ _ _].
     + (* a root among the fresh cells would be its own origin *)
       pose proof (origin_root (st ++ ext) k ck Ek Fk) as Or. rewrite Or in Ok. lia.
     + rewrite Fk. reflexivity.
